@@ -42,6 +42,9 @@ type c05Cell struct {
 	// FailedBefore: before the call of the cell, the same test made a call that failed (a missing snapshot through a Config
 	// with Update(false)): the test has failed already - the mode table does not ask
 	FailedBefore bool `json:"test_already_failed_before_the_call,omitempty"`
+	// Count2: the run executes every test twice (-test.count=2): the second execution finds what the first one left - a
+	// missing snapshot that may not be created is missing (and reported) again
+	Count2 bool `json:"count_2,omitempty"`
 }
 
 const unsetEnv = "<unset>"
@@ -103,6 +106,7 @@ func allC05Cells(seed int) []c05Cell {
 								c.ForeignCwd = (i+seed)%5 == 3
 								c.Shuffle = []string{"", "", "on", "", "1234567", ""}[(i+seed)%6]
 								c.FailedBefore = (i+seed)%4 == 3
+								c.Count2 = (i+seed)%5 == 1
 								switch {
 								case (api == "snap" || api == "json" || api == "yaml") && (i+seed)%4 == 1:
 									c.Pre = "crlf"
@@ -272,7 +276,7 @@ func checkC05(c c05Cell) error {
 		ageDir(root)
 		d0 = snapDir(root)
 	}
-	res, out, err := runProgram(RunOpts{Pkg: ".", CI: c.CI, CIEnv: c.CIEnv, Cwd: cwd, Upd: c.Upd, UpdSet: c.Upd != unsetEnv, Shuffle: c.Shuffle}, run)
+	res, out, err := runProgram(RunOpts{Pkg: ".", CI: c.CI, CIEnv: c.CIEnv, Cwd: cwd, Upd: c.Upd, UpdSet: c.Upd != unsetEnv, Shuffle: c.Shuffle, Count: map[bool]int{false: 1, true: 2}[c.Count2]}, run)
 	if err != nil {
 		return fmt.Errorf("run: %v (%s)", err, vhClip(out))
 	}
@@ -280,6 +284,25 @@ func checkC05(c c05Cell) error {
 	e := expectC05(c)
 	if got := outcomeOfCall(res.byTag("cut")); got != e.outcome {
 		return fmt.Errorf("call outcome %q, the mode table says %q (errors %v)", got, e.outcome, res.byTag("cut"))
+	}
+	if c.Count2 {
+		// the second execution: what was added or updated is there now and matches; what could not be written still fails
+		second := map[string]string{"added": "passed", "updated": "passed", "passed": "passed", "failed": "failed"}[e.outcome]
+		n := 0
+		for i := range res.Calls {
+			if res.Calls[i].Tag != "cut" {
+				continue
+			}
+			n++
+			if n == 2 {
+				if got := outcomeOfCall(&res.Calls[i]); got != second {
+					return fmt.Errorf("second execution (-count=2): call outcome %q, want %q after a first execution that ended as %q (errors %v)", got, second, e.outcome, res.Calls[i].Errors)
+				}
+			}
+		}
+		if n != 2 {
+			return fmt.Errorf("-count=2: the call of the cell was executed %d times", n)
+		}
 	}
 	if c.CI {
 		if d := diffDirs(d0, d1, true); d != "" {
@@ -457,6 +480,9 @@ func classifyC05(c c05Cell) ([]string, bool) {
 	}
 	if c.FailedBefore {
 		cls = append(cls, "test_already_failed_before_the_call")
+	}
+	if c.Count2 {
+		cls = append(cls, "count_2")
 	}
 	return cls, nt
 }
